@@ -43,14 +43,14 @@ class datedelta:  # noqa: N801
     def __add__(self, other):
         if isinstance(other, datedelta):
             return datedelta(self.years + other.years, self.months + other.months, self.days + other.days)
-        if isinstance(other, _dt.date):
+        if isinstance(other, _dt.date) or hasattr(other, 'toordinal'):
             return self._apply(other)
         return NotImplemented
 
     __radd__ = __add__
 
     def __rsub__(self, other):
-        if isinstance(other, _dt.date):
+        if isinstance(other, _dt.date) or hasattr(other, 'toordinal'):
             return (-self)._apply(other)
         return NotImplemented
 
@@ -60,10 +60,21 @@ class datedelta:  # noqa: N801
         return NotImplemented
 
     def _apply(self, d):
+        if not self.years and not self.months:
+            # pure day delta: no calendar-month arithmetic involved
+            if isinstance(d, _dt.date):
+                return d + _dt.timedelta(days=self.days)
+            from lib import symdate
+            return d + symdate.stimedelta(days=self.days)
+        if isinstance(d, _dt.date):
+            cal, td = calendar, _dt.timedelta
+        else:                      # symbolic datetime of /verif/lib/symdate.py (same arithmetic, solver-decided branches)
+            from lib import symdate
+            cal, td = symdate.calendar, symdate.stimedelta
         total = d.year * 12 + (d.month - 1) + self.years * 12 + self.months
-        y, m = divmod(total, 12)
+        y, m = total // 12, total % 12
         m += 1
-        last = calendar.monthrange(y, m)[1]
+        last = cal.monthrange(y, m)[1]
         day = d.day
         if day > last:
             if POLICY == 'clip':
@@ -74,7 +85,7 @@ class datedelta:  # noqa: N801
                     y, m = y + 1, 1
                 day = 1
         r = d.replace(year=y, month=m, day=day)
-        return r + _dt.timedelta(days=self.days)
+        return r + td(days=self.days)
 
 
 YEAR = datedelta(years=1)
